@@ -229,6 +229,10 @@ func (t *tcpDriver) handleProbeLayers() (*common.ProbeResponse, error) {
 		if err != nil {
 			return nil, &common.BadPacketError{Err: fmt.Errorf("tcpDriver failed to get ICMP info: %w", err)}
 		}
+		if icmpInfo.WrappedProtocol != layers.IPProtocolTCP {
+			log.Tracef("tcpDriver ignored ICMP packet which quotes another protocol: %s", icmpInfo.WrappedProtocol)
+			return nil, common.ErrPacketDidNotMatchTraceroute
+		}
 
 		// make sure the source/destination match
 		tcpInfo, err := packets.ParseTCPFirstBytes(icmpInfo.Payload)
